@@ -26,16 +26,22 @@ Definition w_acc : list item :=
 
 Definition run (p : list item) : state := exec_list (fun _ => 1%nat) p init_state.
 
-Lemma w_order_refutes :
-  bad_order w_order = true /\ acc_output w_order = false /\
+(* Both witnesses were refutations of the coherence property for the unrepaired pass (findings F22,
+   F23); after the two `fix:` commits the model of the repaired pass handles them. *)
+Lemma w_order_repaired :
   realize_all w_order =
-    [IAlloc 2; IAlloc 3; IOp 0 [(2, KOut)]; ICopy 0 2; IOp 1 [(2, KIn); (3, KOut)]; ICopy 3 1;
+    [IAlloc 2; IAlloc 3; IOp 0 [(2, KOut)]; ICopy 2 0; ICopy 0 2; IOp 1 [(2, KIn); (3, KOut)]; ICopy 3 1;
      IOp 2 [(2, KOut)]; ICopy 2 0]%nat /\
-  trace (run (realize_all w_order)) <> trace (run w_order).
-Proof. repeat split; try reflexivity. vm_compute. discriminate. Qed.
+  trace (run (realize_all w_order)) = trace (run w_order) /\
+  (forall b, In b [0; 1]%nat -> memo (run (realize_all w_order)) b = memo (run w_order) b).
+Proof.
+  repeat split; try reflexivity. intros b [<-|[<-|[]]]; reflexivity.
+Qed.
 
-Lemma w_acc_refutes :
-  acc_output w_acc = true /\
-  realize_all w_acc = [IAlloc 2; IAlloc 3; ICopy 0 2; IOp 0 [(2, KIn); (3, KOutAcc)]; ICopy 3 1]%nat /\
-  trace (run (realize_all w_acc)) <> trace (run w_acc).
-Proof. repeat split; try reflexivity. vm_compute. discriminate. Qed.
+Lemma w_acc_repaired :
+  realize_all w_acc = [IAlloc 2; IAlloc 3; ICopy 1 3; ICopy 0 2; IOp 0 [(2, KIn); (3, KOutAcc)]; ICopy 3 1]%nat /\
+  trace (run (realize_all w_acc)) = trace (run w_acc) /\
+  (forall b, In b [0; 1]%nat -> memo (run (realize_all w_acc)) b = memo (run w_acc) b).
+Proof.
+  repeat split; try reflexivity. intros b [<-|[<-|[]]]; reflexivity.
+Qed.
